@@ -489,6 +489,10 @@ class InstanceState(interfaces.InspectionAttrInfo, Generic[_O]):
 
             if to_transient and state.key:
                 del state.key
+            if to_transient and deleted:
+                # the object is transient again; a later INSERT must not
+                # leave it reporting the "deleted" state
+                del state._deleted
             if persistent:
                 if to_transient:
                     if persistent_to_transient is not None:
